@@ -329,10 +329,10 @@ def refinement_check(ck, walks, model="fork", maxround=1, seed=1, timeout=2400):
     checked by TLC as an action property on random walks; the deliberately false property RefinesBad must be reported (TLC does check it)."""
     m = MODELS[model]
     def cfg(prop):
-        return ("SPECIFICATION MSpec\nCONSTANTS\n  H = {1, 2, 3}\n  B = {4}\n  Power <- Power4\n  Chains <- %s\n  MaxRound = %d\n  Rank <- RankId\n  Lookahead = 0\n"
+        return ("SPECIFICATION RSpec\nCONSTANTS\n  H = {1, 2, 3}\n  B = {4}\n  Power <- Power4\n  Chains <- %s\n  MaxRound = %d\n  Rank <- RankId\n  Lookahead = 0\n"
                 "  Order <- Order4\n  Input <- %s\n  Depth = 100000\n  Noop = FALSE\nPROPERTY %s\nCHECK_DEADLOCK FALSE\n" % (m["Chains"], maxround, m["Input"], prop)).encode()
     workers = max(2, min(8, vlib.NCPU - 2))
-    r = vlib.tlc(SPECDIR, "GPBFTRefine", "gen.cfg", workdir=os.path.join(ck.dir, "tlc-refine"), workers=workers, timeout=timeout,
+    r = vlib.tlc(SPECDIR, "GPBFTRefine", "gen.cfg", workdir=os.path.join(ck.dir, "tlc-refine-" + model), workers=workers, timeout=timeout,
                  simulate="num=%d" % max(1, walks // workers), depth=80, seed=seed, extra_files={"gen.cfg": cfg("Refines1")})
     mm = re.search(r"The number of states generated: (\d+)", r.out)
     if mm:
@@ -340,7 +340,7 @@ def refinement_check(ck, walks, model="fork", maxround=1, seed=1, timeout=2400):
     if r.error or r.violated:
         raise Inconclusive("refinement GPBFT => GPBFTQuorum: %s %s (the abstraction does not cover a step of the per-message model: repair the model before any claim)\n%s"
                            % (r.violated, r.error, r.out[-2500:]))
-    ck.add_tlc("design:refinement(GPBFT=>GPBFTQuorum)", r, exhaustive=False, note="%d random walks, action property [][Abs!Next]_absvars" % walks)
+    ck.add_tlc("design:refinement(GPBFT=>GPBFTQuorum)[%s]" % model, r, exhaustive=False, note="%d random walks, action property [][Abs!Next]_absvars" % walks)
     rb = vlib.tlc(SPECDIR, "GPBFTRefine", "gen.cfg", workdir=os.path.join(ck.dir, "tlc-refine-bad"), workers=2, timeout=300,
                   simulate="num=2", depth=30, seed=seed, extra_files={"gen.cfg": cfg("RefinesBad")})
     if not rb.violated:
